@@ -290,5 +290,8 @@ def run(chk, fb, tier):
     _d4(chk, fb)
     _d5(chk, fb)
     _d6(chk, fb)
+    from . import copyrule
+    chk.rule("DC", "copy constructor and copy assignment copy the same members; operator= empties a member container before re-populating it; copy functions never assign through a stored shared pointer")
+    copyrule.check(chk, fb, "DC", lambda c: c["file"].endswith(("Bpp/Numeric/AbstractParameterAliasable.h",)), floor=2)
     chk.assume("the lazy initialisation independentParameters_.shareParameters(getParameters()) at the top of aliasParameters is semantically neutral (whitelisted effect)")
     chk.assume("only IntervalConstraint implements ConstraintInterface: operator& never returns null")
